@@ -1,11 +1,140 @@
-import Unsized.MachineLemmas
-/-! # C01 — property theorems (under construction; see notes/C01_machine.md) -/
-namespace Unsized.C01
-open Common Unsized Unsized.Machine
+import Unsized.MachineSiblings
+/-!
+# C01 — Unsized values behave like their owned models under any operation history
 
-/-- A refused or over-limit growth leaves the bytes untouched. -/
-theorem addBytes_err_bytes (m : Mem) (start amount : Nat) (e : Err) (m' : Mem)
-    (h : m.addBytes start amount = (m', .error e)) : m'.bytes = m.bytes ∧ m'.orig = m.orig :=
-  Unsized.Machine.addBytes_err_bytes m start amount e m' h
+Property theorems only. Model: `Unsized/Machine.lean`, `MachineOps.lean`, `MachineRun.lean` (the byte-level
+resize machine the driver `c01_model` executes) against `Unsized/Spec.lean` (the owned model:
+`Vec`/`BTreeSet`/`BTreeMap`/`String`/struct/enum). Helper lemmas: `Unsized/Machine*.lean`.
+
+Vocabulary: `Inv s vs ms` = the machine state `ms` holds exactly the canonical serialization
+`encode s vs.val` of the model value (so `owned()`, a fresh shared view and every live accessor — all
+functions of the bytes and the accessor paths — show the model value), the same accessors are live, and
+there is headroom (`Calm`: no scheduled refusal, allocation below 4 GiB). `CmdOk` = the line is covered:
+its (node kind, op) pair is `Supported`, a successful model step stays below `orig + 10240`, and a failing
+one is not one of the registered known-finding classes.
+-/
+namespace Unsized.C01
+open Common Unsized Unsized.Text Unsized.Machine
+
+/-- The machine state right after the case header: `ExclusiveWrapper::new` over `encode s v`. -/
+def load (s : Shape) (v : Val) : State := State.init (encode s v) []
+
+/-- The invariant holds initially. -/
+theorem load_inv (s : Shape) (v : Val) (hok : s.ok = true) (hwf : WF s v = true)
+    (hsmall : (encode s v).length + maxIncrease < Shape.u32Lim) : Inv s ⟨v, [[]]⟩ (load s v) := by
+  simp only [WF, Bool.and_eq_true] at hwf
+  exact ⟨⟨⟨true, false, hok⟩, hwf.1, hwf.2⟩, rfl, rfl,
+    ⟨rfl, by simpa [load, State.init] using hsmall, by simp [load, State.init]⟩⟩
+
+/-
+FULL STATEMENT (`step_refines`): for every shape `s`, `WF` value, accessor stack, and EVERY op line, the
+machine step has the outcome (`ok ret` / `err class`) of `Spec.applyOp`, and on `ok v'`:
+`bytes' = encode s v'`, `len' = size s v'`, `WF s v'`. Proved below for all `Supported` (node kind, op)
+pairs — every op on `fixed`, `list`, `str`, `rem`, `struct`, `enum` nodes and `touch`/`replace`/`reset`
+on every node kind, at ANY nesting depth below structs, enums, `UnsizedList`s and `UnsizedMap`s (the path
+induction `notify_plug` is complete). Missing: the container-local byte algebra of `set`/`map` (binary
+search vs `insKey`) and of `ulist`/`umap` insert/remove (offset-table memmove) — see notes/C01_machine.md.
+-/
+
+/-- **One op line** (any nesting depth, any live accessor stack): the machine produces exactly the
+outcome and `ret` of the owned model, and afterwards again holds the canonical serialization of the
+model's value with exact length; well-formedness is preserved. -/
+theorem step_refines_partial (s : Shape) (vs : VState) (ms : State) (inv : Inv s vs ms) (cmd : Cmd)
+    (hcmd : CmdOk s vs ms.mem.orig cmd) :
+    (step s ms cmd).2 = (stepV s vs cmd).2
+    ∧ (step s ms cmd).1.mem.bytes = encode s (stepV s vs cmd).1.val
+    ∧ (step s ms cmd).1.mem.bytes.length = size s (stepV s vs cmd).1.val
+    ∧ WF s (stepV s vs cmd).1.val = true
+    ∧ Inv s (stepV s vs cmd).1 (step s ms cmd).1 := by
+  obtain ⟨h1, h2, _⟩ := step_inv s vs ms inv cmd hcmd
+  refine ⟨h1, h2.bytes, ?_, ?_, h2⟩
+  · rw [h2.bytes, encode_size_all _ _ h2.good.valid]
+  · simp [WF, h2.good.valid, h2.good.fits]
+
+/-- **Any finite history** of covered lines from the case header: the outcomes agree line by line and
+the final buffer is the canonical serialization of the model's final value. -/
+theorem history_refines_partial (s : Shape) (v : Val) (hok : s.ok = true) (hwf : WF s v = true)
+    (hsmall : (encode s v).length + maxIncrease < Shape.u32Lim) (cmds : List Cmd)
+    (hh : HistOk s (encode s v).length ⟨v, [[]]⟩ cmds) :
+    (runM s (load s v) cmds).2 = (runS s ⟨v, [[]]⟩ cmds).2
+    ∧ (runM s (load s v) cmds).1.mem.bytes = encode s (runS s ⟨v, [[]]⟩ cmds).1.val
+    ∧ (runM s (load s v) cmds).1.levels = (runS s ⟨v, [[]]⟩ cmds).1.levels := by
+  obtain ⟨h1, h2⟩ := run_inv s cmds ⟨v, [[]]⟩ (load s v) (load_inv s v hok hwf hsmall) (by simpa [load, State.init] using hh)
+  exact ⟨h1, h2.bytes, h2.levels⟩
+
+/-- **Siblings are untouched**: an op that changed the sub-value at `c ++ st2 :: p` (to anything)
+leaves every sub-value at or below a sibling step `st1 ≠ st2` of any common prefix `c` unchanged. -/
+theorem siblings_untouched (s : Shape) (v : Val) (c p q : List Step) (st1 st2 : Step) (x : Val)
+    (hne : st1 ≠ st2) :
+    resolve s (subst s v (c ++ st2 :: p) x) (c ++ st1 :: q) = resolve s v (c ++ st1 :: q) :=
+  resolve_subst_other c s v st1 st2 p q x hne
+
+/-- What a successful model step does to the value: it replaces exactly the addressed sub-value. -/
+theorem step_is_subst (s : Shape) (v : Val) (p : List Step) (op : Op) (v' : Val) (r : Ret)
+    (h : Spec.applyOp s v p op = .ok (v', r)) : ∃ t u u', resolve s v p = .ok (t, u) ∧ v' = subst s v p u' := by
+  rw [spec_applyOp_eq] at h
+  cases hr : resolve s v p with
+  | error e => simp [hr] at h
+  | ok tu =>
+    obtain ⟨t, u⟩ := tu
+    simp only [hr] at h
+    cases ha : Spec.applyNode t u op with
+    | error e => simp [ha] at h
+    | ok ur =>
+      obtain ⟨u', r'⟩ := ur
+      simp only [ha, Except.ok.injEq, Prod.mk.injEq] at h
+      exact ⟨t, u, u', rfl, h.1.symm⟩
+
+/-- **Key-ordered containers stay strictly sorted and duplicate free**: in every state reached by a
+covered history, every `Set`, `Map` and `UnsizedMap` anywhere in the value has strictly increasing keys. -/
+theorem sorted_preserved_partial (s : Shape) (vs : VState) (ms : State) (inv : Inv s vs ms) (cmds : List Cmd)
+    (hh : HistOk s ms.mem.orig vs cmds) (q : List Step) (t : Shape) (u : Val)
+    (hq : resolve s (runS s vs cmds).1.val q = .ok (t, u)) :
+    (∀ e lw es, t = .set e lw → u = .seq es → strictKeys (es.map (keyOf e.size)) = true)
+    ∧ (∀ kw f lw es, t = .map kw f lw → u = .seq es → strictKeys (es.map (keyOf kw)) = true)
+    ∧ (∀ kw e es, t = .umap kw e → u = .umap es → strictKeys (es.map fun kv => rdLE kv.1) = true) := by
+  have g := resolve_good q s _ t u (run_inv s cmds vs ms inv hh).2.good hq
+  refine ⟨?_, ?_, ?_⟩
+  · rintro e lw es rfl rfl; have := g.valid; simp only [valid, Bool.and_eq_true] at this; exact this.2
+  · rintro kw f lw es rfl rfl; have := g.valid; simp only [valid, Bool.and_eq_true] at this; exact this.2
+  · rintro kw e es rfl rfl; have := g.valid; simp only [valid, Bool.and_eq_true] at this; exact this.2
+
+
+/-! ## Non-vacuity: a depth-3 value and a history crossing a `u8` length-prefix boundary -/
+
+/-- `struct { a: u8, l: List<u8,u8>, ul: UnsizedList<struct { x: List<u8,u8>, y: List<u8,u8> }>, e: enum { A, B(List<u16,u32>) } }` -/
+def exS : Shape := .struct [.pod 1] [.list (.pod 1) 1,
+  .ulist (.struct [] [.list (.pod 1) 1, .list (.pod 1) 1]), .enum [0, 5] [.unit, .list (.pod 2) 4]]
+/-- `l` is full (255 elements of a `u8`-prefixed list). -/
+def exV : Val := .record [7] [.seq (List.replicate 255 [1]),
+  .useq [.record [] [.seq [[1]], .seq []]], .variant 0 .unit]
+def exH : List Cmd := [
+  .op [.field 0] (.push [2]),                         -- 256th element: `ToPrimitiveError`, nothing changes
+  .op [.field 1, .elem 0, .field 0] (.push [9]),      -- a push at depth 3 (struct → ulist → struct → list)
+  .op [.field 2] (.setVariant 1),                     -- enum variant switch after the list of lists
+  .op [.field 0] (.remove 0),
+  .op [.field 0] (.push [3]),                         -- fits again: exactly 255
+  .enter (.field 1), .enter (.elem 0),                -- two live accessors
+  .op [.field 1] (.insertAll 0 [[0xaa], [0xbb]]),
+  .leave, .reborrow,
+  .op [.field 2, .payload] (.push [1, 2])]
+
+/-- The hypotheses of `history_refines_partial` are satisfiable by this history … -/
+example : exS.ok = true ∧ WF exS exV = true ∧ (encode exS exV).length + maxIncrease < Shape.u32Lim
+    ∧ HistOk exS (encode exS exV).length ⟨exV, [[]]⟩ exH :=
+  ⟨by decide, by decide +kernel, by decide +kernel, by unfold HistOk; decide +kernel⟩
+
+/-- … whose first line fails (prefix overflow) and all others succeed, on model and machine alike. -/
+example : (runM exS (load exS exV) exH).2.map (fun r => r.toBool)
+    = [false, true, true, true, true, true, true, true, true, true, true] := by decide +kernel
+
+/-- `step_refines_partial` applies to the state after the header (non-vacuity of `Inv`/`CmdOk`). -/
+example : CmdOk exS ⟨exV, [[]]⟩ (load exS exV).mem.orig (.op [.field 1, .elem 0, .field 0] (.push [9])) := by
+  unfold CmdOk; decide +kernel
+
+/-- `siblings_untouched` on the example: growing `ul[0].x` leaves `ul[0].y`, `l` and `e` alone. -/
+example : resolve exS (subst exS exV [.field 1, .elem 0, .field 0] (.seq [[1], [9]])) [.field 1, .elem 0, .field 1]
+    = resolve exS exV [.field 1, .elem 0, .field 1] :=
+  siblings_untouched exS exV [.field 1, .elem 0] [] [] (.field 1) (.field 0) _ (by decide)
 
 end Unsized.C01
